@@ -129,12 +129,13 @@ func layerID(uncompressed []byte) string {
 }
 
 type auditor struct {
+	noRefs  bool // do not follow referrers (descriptor closure only)
 	st      store
 	ev      []vtrace.Event
 	seen    map[string]bool
-	closure map[string]bool       // every digest reached (manifests and blobs)
-	mans    map[string]bool       // manifests reached
-	bySubj  map[string][]string   // subject digest -> manifests in the store naming it
+	closure map[string]bool         // every digest reached (manifests and blobs)
+	mans    map[string]bool         // manifests reached
+	bySubj  map[string][]string     // subject digest -> manifests in the store naming it
 	facts   map[string]vtrace.Event // name -> image facts (for drift comparison outside the trace)
 	record  bool
 }
@@ -209,6 +210,14 @@ func (a *auditor) check(in, role string, i int, d gdesc, plat int) ([]byte, bool
 	return content, present
 }
 
+func fallbackTag(dig string) string {
+	alg, hx, _ := strings.Cut(dig, ":")
+	if len(hx) > 64 {
+		hx = hx[:64]
+	}
+	return alg + "-" + hx
+}
+
 func short(d string) string {
 	if len(d) > 19 {
 		return d[:19]
@@ -264,12 +273,15 @@ func (a *auditor) manifest(name, dig string) {
 			a.image(name, cfgb, m.Layers, layers, have)
 		}
 	}
+	if a.noRefs {
+		return
+	}
 	// referrers: every stored manifest whose subject is this manifest
 	for i, r := range a.bySubj[dig] {
 		a.manifest(fmt.Sprintf("%s/ref%d", name, i), r)
 	}
-	// layout fall-back tag naming the referrers index
-	if fb, ok := a.st.tag(strings.Replace(dig, ":", "-", 1)); ok {
+	// layout fall-back tag <alg>-<first 64 hex> naming the referrers index
+	if fb, ok := a.st.tag(fallbackTag(dig)); ok {
 		if fbb, ok := a.st.get(fb); ok {
 			a.closure[fb] = true
 			a.mans[fb] = true
@@ -294,6 +306,9 @@ func (a *auditor) image(name string, cfgb []byte, descs []gdesc, layers [][]byte
 	for i := range descs {
 		id := "X"
 		ok := 0
+		if !have[i] && len(descs[i].URLs) > 0 {
+			id, ok = "EXT", 2 // external layer that is not stored: nothing to compare with
+		}
 		if have[i] {
 			if uc, err := decompress(layers[i]); err == nil {
 				if tarMTs[descs[i].MediaType] != "" || descs[i].MediaType == "" {
@@ -334,10 +349,21 @@ func (a *auditor) image(name string, cfgb []byte, descs []gdesc, layers [][]byte
 	a.facts[name] = vtrace.Event{"lids": lids, "hseq": hseq, "arch": c.Architecture}
 }
 
-// closureHash identifies the content of the closure of root (with referrers) in a store.
-func closureHash(st store, root string) string {
+// closureHash identifies the content reachable from root through descriptors in a store, and lists the
+// referrers (manifests naming a member of that closure, or of a referrer, as subject) found next to it.
+func closureHash(st store, root string) (string, []string) {
 	a := newAuditor(st, false)
+	a.noRefs = true
 	a.manifest("root", root)
+	withRefs := newAuditor(st, false)
+	withRefs.manifest("root", root)
+	refs := []string{}
+	for d := range withRefs.mans {
+		if !a.mans[d] {
+			refs = append(refs, d)
+		}
+	}
+	sort.Strings(refs)
 	ds := []string{}
 	for d := range a.closure {
 		ds = append(ds, d)
@@ -352,5 +378,5 @@ func closureHash(st store, root string) string {
 			sb.WriteString(d + "=missing\n")
 		}
 	}
-	return shaHex([]byte(sb.String()))[:16]
+	return shaHex([]byte(sb.String()))[:16], refs
 }
